@@ -141,6 +141,10 @@ def cases(tier, seed):
         d = rng.randint(2, 4)
         cs.append({'gen': 'mask', 'N': [rng.choice((2, 3, 4)) for _ in range(d)], 'R': gens.rank_profile(rng, d, 'rand', 3), 'Mrows': m + (i // 6) * 1111, 'exhaustive': False,
                    'dtype': ['f64', 'c128', 'f32'][i % 3], 'vals': 'int'})
+    # long index lists on tensors with LARGE ranks (rows x r x r' beyond 2^21), python-style negative entries included
+    for i in range(4 if not thorough else 16):
+        cs.append({'gen': 'mask', 'N': [[8, 8, 8, 8], [6, 7, 8], [8, 8, 8, 8], [4, 9, 9, 4]][i % 4], 'R': [[1, 8, 64, 8, 1], [1, 6, 8, 1], [1, 8, 32, 8, 1], [1, 4, 36, 4, 1]][i % 4],
+                   'Mrows': [6000, 50000, 9000, 7001][i % 4], 'exhaustive': False, 'dtype': ['f64', 'c128'][i % 2], 'vals': 'int', 'neg': True})
     from .. import hist
     cs += hist.cases(PROP, tier, seed)
     return cs
@@ -284,7 +288,7 @@ def run_mask(case, ctx, g):
         I = torch.tensor(list(itertools.product(*[range(n) for n in N])), dtype=torch.int64).reshape(-1, d)
     else:
         I = torch.stack([torch.randint(0, n, (case['Mrows'],), generator=g) for n in N], dim=1)
-    if not case['exhaustive'] and case['seed'] % 3 != 0 and I.shape[0] > 1:
+    if not case['exhaustive'] and (case['seed'] % 3 != 0 or case.get('neg')) and I.shape[0] > 1:
         # python-style negative entries (accepted like in torch indexing) and repeated rows
         neg = torch.rand(I.shape, generator=g) < 0.3
         I = torch.where(neg, I - torch.tensor(N, dtype=I.dtype), I)
